@@ -189,7 +189,7 @@ theorem NP_fieldCore {c : Cfg} {name : Str} {tag : Option Str} {isSlice : Bool} 
       cases e <;> simp_all [NP]
     | ok kp0 =>
       simp only [parseTagC, hp, Except.map]
-      generalize canonTag c.canonical c.pinned kp0 = kp
+      generalize canonTag c.keyFn c.pinned kp0 = kp
       obtain ⟨key, po⟩ := kp
       simp only
       cases hr : resolveOpts c po key m with
